@@ -48,12 +48,13 @@ func newListSubj[T comparable](cfg Cfg, d *Dom[T]) *listSubj[T] {
 	return &listSubj[T]{cfg: cfg, d: d, l: makeList[T](cfg.Kind), garbage: d.Probes[0]}
 }
 
-func (s *listSubj[T]) Kind() string   { return s.cfg.Kind }
-func (s *listSubj[T]) Family() string { return "list" }
-func (s *listSubj[T]) Config() Cfg    { return s.cfg }
-func (s *listSubj[T]) Real() any      { return s.l }
-func (s *listSubj[T]) IO() jsonIO     { return s.l.(jsonIO) }
-func (s *listSubj[T]) ModelSize() int { return len(s.m) }
+func (s *listSubj[T]) SetScribble(b bool) { s.scribble = b }
+func (s *listSubj[T]) Kind() string       { return s.cfg.Kind }
+func (s *listSubj[T]) Family() string     { return "list" }
+func (s *listSubj[T]) Config() Cfg        { return s.cfg }
+func (s *listSubj[T]) Real() any          { return s.l }
+func (s *listSubj[T]) IO() jsonIO         { return s.l.(jsonIO) }
+func (s *listSubj[T]) ModelSize() int     { return len(s.m) }
 func (s *listSubj[T]) Fresh() Subject {
 	n := newListSubj(s.cfg, s.d)
 	n.scribble = s.scribble
